@@ -91,6 +91,13 @@ func (v *Verifier) doCall(st *State, in ssa.Instruction, c *ssa.CallCommon) Valu
 			return v.callClosure(st, in, ci, args, retT)
 		}
 	}
+	if key == "" && v.contract != nil && v.contract.Callbacks != nil {
+		if prm, ok := c.Value.(*ssa.Parameter); ok {
+			if cb := v.contract.Callbacks[prm.Name()]; cb != nil {
+				return v.callCallbackParam(st, in, cb, prm.Name(), args, retT)
+			}
+		}
+	}
 	if key == "" {
 		// dynamic call of a function value
 		fv := v.operand(st, c.Value)
@@ -167,6 +174,36 @@ func (v *Verifier) contractProps() []string {
 	return nil
 }
 
+// callCallbackParam: inside a higher-order function, a call of its callback parameter. The
+// function must establish what it guarantees about the arguments; the callback may change every
+// heap map except the preserved ones.
+func (v *Verifier) callCallbackParam(st *State, in ssa.Instruction, cb *CallbackSpec, name string, args []Value, retT types.Type) Value {
+	vars := v.baseVars(st)
+	for i, an := range cb.ArgNames {
+		if i < len(args) {
+			vars[an] = args[i]
+		}
+	}
+	se := v.specEnv(st, vars)
+	for i, g := range cb.Guarantees {
+		v.emit(st, "callback.guarantee", fmt.Sprintf("%s.%d@%s", name, i+1, v.siteLabel(in)), se.evalBool(g.E), g.Props, "guaranteed to the callback: "+g.Text, in)
+	}
+	pre := v.specEnv(st, vars).inState(v.entry)
+	keep := map[string]bool{}
+	tmp := &Contract{Modifies: cb.Preserves, Pkg: v.contract.Pkg}
+	sets, _, _ := v.modSets(tmp, pre)
+	for n := range sets {
+		keep[n] = true
+	}
+	v.havocAllExcept(st, keep)
+	if retT == nil {
+		return Value{}
+	}
+	r := v.freshValue(st, "ret.callback", retT)
+	v.assumeTypeFacts(st, r)
+	return r
+}
+
 // havocCall models a call whose callee has no contract: everything may change, the result is
 // arbitrary (sound over-approximation).
 func (v *Verifier) havocCall(st *State, in ssa.Instruction, why string, retT types.Type) Value {
@@ -224,31 +261,116 @@ func (v *Verifier) applyContract(st *State, in ssa.Instruction, key string, ct *
 	// havoc the modifies set
 	preEnv := &SpecEnv{e: v.env, s: pre, old: pre, vars: vars, pkg: ct.Pkg, qn: &v.qn}
 	sets, sorts, everything := v.modSets(ct, preEnv)
+	// callbacks: the callee may call the closure any number of times
+	var cbAfter []func()
+	for pname, cb := range ct.Callbacks {
+		idx := -1
+		for i, n := range pnames {
+			if n == pname {
+				idx = i
+			}
+		}
+		if idx < 0 || idx >= len(args) {
+			continue
+		}
+		ci := v.closures[args[idx].T]
+		var cct *Contract
+		if ci != nil {
+			cct = v.prog.contract[funcKey(ci.fn)]
+		}
+		if ci == nil || cct == nil {
+			v.notes = append(v.notes, fmt.Sprintf("callback argument of %s at %s has no contract: whole heap havocked", key, v.posOf(in)))
+			everything = true
+			continue
+		}
+		// closure environment: free variables bound to the captured cells
+		cvars := func(s *State) map[string]Value {
+			m := map[string]Value{}
+			for k, fv := range ci.fn.FreeVars {
+				if k < len(ci.bindings) {
+					b := ci.bindings[k]
+					if b.Addr != nil {
+						m["&"+fv.Name()] = b
+						m[fv.Name()] = v.loadAddr(s, b, in)
+					} else {
+						m[fv.Name()] = b
+					}
+				}
+			}
+			return m
+		}
+		cshort := ci.fn.Name()
+		// 1. the closure invariant holds now
+		seC := &SpecEnv{e: v.env, s: st, old: pre, vars: cvars(st), oldVars: cvars(pre), pkg: cct.Pkg, qn: &v.qn}
+		for _, inv := range cct.Invariants {
+			v.emit(st, "pre", "callback.inv."+cshort+"."+inv.Label+"@"+v.siteLabel(in), seC.evalBool(inv.E), v.contractProps(), "closure invariant holds before the call: "+inv.Text, in)
+		}
+		// 2. the closure leaves the preserved maps alone
+		cpre := &SpecEnv{e: v.env, s: pre, old: pre, vars: cvars(pre), pkg: cct.Pkg, qn: &v.qn}
+		for i, p := range ci.fn.Params {
+			cpre.vars[p.Name()] = v.freshValue(st, "cbarg."+p.Name(), p.Type())
+			_ = i
+		}
+		csets, csorts, cevery := v.modSets(cct, cpre)
+		keepC := &Contract{Modifies: cb.Preserves, Pkg: ct.Pkg}
+		ksets, _, _ := v.modSets(keepC, preEnv)
+		bad := cevery
+		for n := range csets {
+			if _, ok := ksets[n]; ok {
+				bad = true
+			}
+		}
+		if bad {
+			v.emit(st, "pre", "callback.preserves."+cshort+"@"+v.siteLabel(in), "false", v.contractProps(), "the closure may modify state that "+key+" requires its callback to preserve", in)
+		}
+		// 3. in any state the callee may be in when it calls back (its own and the closure's
+		//    modifies havocked, invariant and guarantee assumed) the closure's precondition holds
+		s2 := st.clone()
+		v.havocSets(s2, sets, sorts)
+		v.havocSets(s2, csets, csorts)
+		na := v.env.ctx.freshConst("alloc", "Int")
+		s2.assume("(>= " + na + " " + s2.alloc + ")")
+		s2.alloc = na
+		cv2 := cvars(s2)
+		gvars := map[string]Value{}
+		for k, val := range vars {
+			gvars[k] = val
+		}
+		for i, p := range ci.fn.Params {
+			av := v.freshValue(s2, "cbarg."+p.Name(), p.Type())
+			v.assumeTypeFacts(s2, av)
+			cv2[p.Name()] = av
+			if i < len(cb.ArgNames) {
+				gvars[cb.ArgNames[i]] = av
+			}
+		}
+		seG := &SpecEnv{e: v.env, s: s2, old: pre, vars: gvars, pkg: ct.Pkg, qn: &v.qn}
+		for _, g := range cb.Guarantees {
+			s2.assume(seG.evalBool(g.E))
+		}
+		se2 := &SpecEnv{e: v.env, s: s2, old: pre, vars: cv2, oldVars: cvars(pre), pkg: cct.Pkg, qn: &v.qn}
+		for _, inv := range cct.Invariants {
+			s2.assume(se2.evalBool(inv.E))
+		}
+		for _, r := range cct.Requires {
+			v.emit(s2, "pre", "callback.req."+cshort+"."+r.Label+"@"+v.siteLabel(in), se2.evalBool(r.E), v.contractProps(), "closure precondition at every callback: "+r.Text, in)
+		}
+		// 4. effect on the caller's state: the closure's modifies are havocked too, its invariant holds afterwards
+		for n, objs := range csets {
+			sets[n] = append(sets[n], objs...)
+			sorts[n] = csorts[n]
+		}
+		cbAfter = append(cbAfter, func() {
+			seA := &SpecEnv{e: v.env, s: st, old: pre, vars: cvars(st), oldVars: cvars(pre), pkg: cct.Pkg, qn: &v.qn}
+			for _, inv := range cct.Invariants {
+				st.assume(seA.evalBool(inv.E))
+			}
+		})
+	}
 	if everything {
 		v.havocAll(st)
 	} else {
-		for _, name := range sortedKeysL(sets) {
-			objs := sets[name]
-			srt := sorts[name]
-			wild := false
-			for _, o := range objs {
-				if o == "*" {
-					wild = true
-				}
-			}
-			if wild || !strings.HasPrefix(srt, "(Array Int ") {
-				v.env.heapHavoc(st, name, srt)
-				continue
-			}
-			cur := v.env.heapGet(st, name, srt)
-			inner := strings.TrimSuffix(strings.TrimPrefix(srt, "(Array Int "), ")")
-			term := cur
-			for _, o := range objs {
-				fv := v.env.ctx.freshConst("hv."+name, inner)
-				term = sto(term, o, fv)
-			}
-			v.env.heapSet(st, name, srt, term)
-		}
+		v.havocSets(st, sets, sorts)
 		if !ct.Pure {
 			na := v.env.ctx.freshConst("alloc", "Int")
 			st.assume("(>= " + na + " " + st.alloc + ")")
@@ -296,6 +418,9 @@ func (v *Verifier) applyContract(st *State, in ssa.Instruction, key string, ct *
 	post := &SpecEnv{e: v.env, s: st, old: pre, vars: vars, pkg: ct.Pkg, qn: &v.qn}
 	for _, en := range ct.Ensures {
 		st.assume(post.evalBool(en.E))
+	}
+	for _, f := range cbAfter {
+		f()
 	}
 	return ret
 }
@@ -358,7 +483,7 @@ func (v *Verifier) callMods(c *ssa.CallCommon, maps map[string]string) bool {
 			mt := c.Args[0].Type().Underlying().(*types.Map)
 			_, mp, _, ks := v.env.mapNames(mt)
 			maps[mp] = arr("Int", arr(ks, "Bool"))
-			maps["ML"] = arr("Int", "Int")
+			maps[v.env.mlName(mt)] = arr("Int", "Int")
 		}
 		return false
 	}
@@ -448,14 +573,21 @@ func (v *Verifier) callMods(c *ssa.CallCommon, maps map[string]string) bool {
 			maps[cellMapName(es)] = arr("Int", es)
 		case "map":
 			t := v.staticType(m.E, ptypes, ct.Pkg)
+			if t == nil {
+				return true
+			}
 			mt, ok := t.Underlying().(*types.Map)
-			if t == nil || !ok {
+			if !ok {
 				return true
 			}
 			a, b, vs, ks := v.env.mapNames(mt)
 			maps[a] = arr("Int", arr(ks, vs))
 			maps[b] = arr("Int", arr(ks, "Bool"))
-			maps["ML"] = arr("Int", "Int")
+			maps[v.env.mlName(mt)] = arr("Int", "Int")
+		case "allmap":
+			maps["MV!Val!Int"] = arr("Int", arr("Val", "Int"))
+			maps["MP!Val!Int"] = arr("Int", arr("Val", "Bool"))
+			maps["ML!Val!Int"] = arr("Int", "Int")
 		case "all", "allelems":
 			se := &SpecEnv{e: v.env, pkg: ct.Pkg, qn: &v.qn}
 			if m.Kind == "all" {
@@ -566,6 +698,26 @@ func (v *Verifier) staticType(e Expr, ptypes map[string]types.Type, pkg string) 
 	case *ECall:
 		if id, ok := x.Fn.(*EIdent); ok && id.Name == "old" && len(x.Args) == 1 {
 			return v.staticType(x.Args[0], ptypes, pkg)
+		}
+		// spec function with a declared result type
+		if id, ok := x.Fn.(*EIdent); ok {
+			sf := v.prog.specFn[pkg+"."+id.Name]
+			if sf == nil {
+				for k, f := range v.prog.specFn {
+					if strings.HasSuffix(k, "."+id.Name) {
+						sf = f
+					}
+				}
+			}
+			if sf != nil && sf.Ret != nil {
+				var t types.Type
+				func() {
+					defer func() { recover() }()
+					se := &SpecEnv{e: v.env, pkg: sf.Pkg, qn: &v.qn}
+					t = se.resolveType(sf.Ret)
+				}()
+				return t
+			}
 		}
 	}
 	return nil
@@ -846,6 +998,30 @@ func init() {
 		}
 		nativeMods[k] = pureMods
 	}
+	// bytes.Buffer as an opaque object with a version counter: Bytes()/Len() are functions of
+	// (buffer, version); every write bumps the version (trusted model, refined by the typed-stream
+	// stubs where codecs are verified)
+	nativeStubs["bytes.NewBuffer"] = func(v *Verifier, st *State, in ssa.Instruction, c *ssa.CallCommon, args []Value, retT types.Type) Value {
+		r := v.env.allocRef(st, "buffer")
+		v.env.ctx.declFun("buf.init", []string{"Int"}, "Slice")
+		st.assume(eq(app("buf.init", r), args[0].T))
+		return Value{T: r, Sort: "Int", GoT: retT}
+	}
+	nativeMods["bytes.NewBuffer"] = pureMods
+	nativeStubs["bytes.(*Buffer).Bytes"] = func(v *Verifier, st *State, in ssa.Instruction, c *ssa.CallCommon, args []Value, retT types.Type) Value {
+		ver := v.env.heapGet(st, "G!bufver", arr("Int", "Int"))
+		v.env.ctx.declFun("buf.bytes", []string{"Int", "Int"}, "Slice")
+		r := Value{T: app("buf.bytes", args[0].T, sel2(ver, args[0].T)), Sort: "Slice", GoT: retT}
+		st.assume(sliceWF(r.T))
+		return r
+	}
+	nativeMods["bytes.(*Buffer).Bytes"] = pureMods
+	nativeStubs["bytes.(*Buffer).Len"] = func(v *Verifier, st *State, in ssa.Instruction, c *ssa.CallCommon, args []Value, retT types.Type) Value {
+		ver := v.env.heapGet(st, "G!bufver", arr("Int", "Int"))
+		v.env.ctx.declFun("buf.bytes", []string{"Int", "Int"}, "Slice")
+		return Value{T: sliceLen(app("buf.bytes", args[0].T, sel2(ver, args[0].T))), Sort: "Int", GoT: retT}
+	}
+	nativeMods["bytes.(*Buffer).Len"] = pureMods
 	nativeStubs["builtin.(error).Error"] = func(v *Verifier, st *State, in ssa.Instruction, c *ssa.CallCommon, args []Value, retT types.Type) Value {
 		r := v.freshValue(st, "errtext", retT)
 		v.assumeTypeFacts(st, r)
@@ -990,4 +1166,30 @@ func init() {
 	}
 	nativeMods["reflect.(Type).Kind"] = pureMods
 	nativeMods["reflect.TypeOf"] = pureMods
+}
+
+// havocSets forgets the listed locations: whole maps for "*" entries, single objects otherwise.
+func (v *Verifier) havocSets(st *State, sets map[string][]string, sorts map[string]string) {
+	for _, name := range sortedKeysL(sets) {
+		objs := sets[name]
+		srt := sorts[name]
+		wild := false
+		for _, o := range objs {
+			if o == "*" {
+				wild = true
+			}
+		}
+		if wild || !strings.HasPrefix(srt, "(Array Int ") {
+			v.env.heapHavoc(st, name, srt)
+			continue
+		}
+		cur := v.env.heapGet(st, name, srt)
+		inner := strings.TrimSuffix(strings.TrimPrefix(srt, "(Array Int "), ")")
+		term := cur
+		for _, o := range objs {
+			fv := v.env.ctx.freshConst("hv."+name, inner)
+			term = sto(term, o, fv)
+		}
+		v.env.heapSet(st, name, srt, term)
+	}
 }
